@@ -1,16 +1,171 @@
 /-
-C03 — setters program the documented encoding; getters agree (statements in progress).
+C03 — setters program the radio with the documented encoding; getters agree.
+
+Spec (what the documentation says each call does, per data-sheet bit field): `NrfModel/Spec/Cfg.lean`
+  `Call`      the configuration alphabet with its argument forms (46 constructors)
+  `runCall`   the model method (`NrfModel/Rf24.lean`, the transliterated `rf24.py`) a call stands for
+  `docStep`   documented effect on the abstract state `CfgSt` = (configuration part of the chip:
+              registers + CE + chip variant + the chip's log of reserved/out-of-range writes,
+              ghost reading address of pipe 0) and documented result; `.error e` = rejected
+  `CfgOk`     every register within its documented range, no reserved bit, nothing reserved or
+              out of range ever logged (`LogOk`: `SETUP_AW:illegal:0` — the library documents
+              2-byte addresses — and `CE:` entries are not C03's concern)
+  `Call.dom`  the explored domain: addresses of at most 5 bytes (explicit hypothesis), carrier
+              wave test on the plus variant only
+Invariant (`NrfProofs/C03/Base.lean`): `Inv s` = the object's radio exists ∧ `Cached` (every shadow
+attribute equals the register it caches: 15 equations) ∧ `CfgOk` ∧ the ghost address is 1..5 bytes.
+CE is part of the abstract state (the `listen` setter and the carrier wave test document it); time
+is not (`spiStep_cfg`: no configuration register depends on the clock, the FIFOs or the air).
+Per-method lemmas: `NrfProofs/C03/*.lean`.
 -/
-import NrfModel.Rf24
+import NrfProofs.C03.History
+import NrfProofs.C03.Init
+import NrfProofs.C03.Getters
 
 namespace Nrf.Props.C03
-open Nrf
+open Nrf Rf24 Cfg
 
-/-- placeholder obligation replaced below as the Hoare lemmas land: the initial shadow state of a
-    fresh object is in byte range -/
-theorem C03_init_shadow_range :
-    let d : Rf24 := {}
-    d.config < 256 ∧ d.retrySetup < 256 ∧ d.rfSetup < 256 ∧ d.dynPl < 64 ∧ d.aa < 64 := by
-  decide
+/-- **One call.**  For every call `c` of the alphabet with arguments from the whole domain (any
+    `Int`, any `bool | int | list | other` argument, any pipe number, any address of ≤ 5 bytes) and
+    every state satisfying the invariant — whatever is in the FIFOs, on the air, in the other
+    radios, on the clock:
+    * the invariant holds again (cache = radio, registers in range, nothing reserved/out of range
+      written: the chip's violation log stays clean);
+    * if the documentation accepts the call, it returns the documented result and the radio's
+      configuration registers (and CE, and the ghost address) are *exactly* the documented encoding;
+    * if the documentation rejects it, the documented exception is raised and every register of
+      the radio is *equal* to what it was;
+    * no register of any other radio changes. -/
+theorem C03_step (c : Call) (s : DrvState) (h : Inv s) (hd : c.dom s.cfg.plus) :
+    Inv (exec (runCall c) s).2 ∧
+    (∀ a' ret, docStep c s.abs = .ok (a', ret) →
+      (exec (runCall c) s).1 = .ok ret ∧ (exec (runCall c) s).2.abs = a') ∧
+    (∀ e, docStep c s.abs = .error e →
+      (exec (runCall c) s).1 = .error e ∧ (exec (runCall c) s).2.abs = s.abs) ∧
+    (∀ j, j ≠ s.d.rid → (exec (runCall c) s).2.cfgAt j = s.cfgAt j) :=
+  have h1 := stepOk c s h hd
+  ⟨h1.inv, h1.ok, h1.err, h1.frame⟩
+
+/-- **Any history.**  After any sequence of calls (no length bound; an exception does not stop the
+    history, the object lives on as in Python) from a state satisfying the invariant: the invariant
+    holds, the list of results/exceptions is the documented one, the abstract state is the
+    documented one (`docRun` folds `docStep`; rejected calls change nothing), other radios are
+    untouched. -/
+theorem C03_history (cs : List Call) (s : DrvState) (h : Inv s) (hd : ∀ c ∈ cs, c.dom s.cfg.plus) :
+    Inv (runCalls cs s).2 ∧
+    (runCalls cs s).1 = (docRun cs s.abs).1 ∧
+    (runCalls cs s).2.abs = (docRun cs s.abs).2 ∧
+    (∀ j, j ≠ s.d.rid → (runCalls cs s).2.cfgAt j = s.cfgAt j) :=
+  have h1 := history cs s h hd
+  ⟨h1.1, h1.2.1, h1.2.2.1, h1.2.2.2.1⟩
+
+/-- **`__enter__` establishes the invariant** on a chip whose feature registers are accessible
+    (nRF24L01+, or a non-plus chip after ACTIVATE), from *any* world: whatever the registers held
+    before, for any shadow state in programmable range (`ShadowOk`: what `__init__` and the setters
+    leave), provided the chip's address/width registers are well-formed (`RadioShape`) and nothing
+    reserved was logged before.  Every configuration register then holds the encoding of the
+    object's cached value (`enterCfg`) — which is also the register-level half of C09. -/
+theorem C03_enter_inv (s : DrvState) (hw : s.Wf) (hs : ShadowOk s.d) (hr : RadioShape s.cfg)
+    (hvis : s.cfg.featureVisible = true) (hplus : s.d.isPlus = s.cfg.plus) (hlog : LogOk s.cfg.violations) :
+    (exec enter s).1 = .ok () ∧ Inv (exec enter s).2 ∧
+    (exec enter s).2.cfg = enterCfg s.d s.cfg ∧
+    (∀ j, j ≠ s.d.rid → (exec enter s).2.cfgAt j = s.cfgAt j) :=
+  enter_inv s hw hs hr hvis hplus hlog
+
+/-- **`__init__` establishes the invariant** on a plus-variant chip in any well-formed state (any
+    register contents, FIFOs, flags): the constructor succeeds, detects the variant, and leaves
+    cache = radio with every register in range. -/
+theorem C03_init_inv (s : DrvState) (hw : s.Wf) (hr : RadioShape s.cfg) (hplus : s.cfg.plus = true)
+    (hlog : LogOk s.cfg.violations) (hd : s.d.config = 0x0E) :
+    (exec init s).1 = .ok () ∧ Inv (exec init s).2 ∧
+    (∀ j, j ≠ s.d.rid → (exec init s).2.cfgAt j = s.cfgAt j) :=
+  init_inv s hw hr hplus hlog hd
+
+/-- **Getters agree with setters.**  For every attribute field `f` (`Field`: channel, data rate, PA
+    level, LNA, CRC bits, address length, ARD, ARC, auto-ack mask, dynamic-payload mask, the six
+    payload lengths, ACK payloads, ask-no-ack, the three IRQ masks, power, role, pipe mask, the
+    addresses): a call that does not own `f` (`owns`) leaves the value `obs f` unchanged, so after
+    a setter and any sequence of calls that do not own the field the getter still returns the
+    clamped value that setter established.  (`getter_after_setter` instances below.) -/
+theorem C03_getter_agrees (f : Field) (cs : List Call) (a : CfgSt) (ha : CfgOk a.r) (hu : P0Ok a.user0)
+    (hd : ∀ c ∈ cs, c.dom a.r.plus) (hown : ∀ c ∈ cs, owns c f = false) :
+    obs f (docRun cs a).2.r = obs f a.r :=
+  obs_docRun f cs a ha hu hd hown
+
+/-- … on the model: the register-level value of a field after any sequence of calls that do not own
+    it is the one it had; with `C03_step` for the setter before and the getter after this is the
+    round trip through the real driver code. -/
+theorem C03_getter_agrees_model (f : Field) (cs : List Call) (s : DrvState) (h : Inv s)
+    (hd : ∀ c ∈ cs, c.dom s.cfg.plus) (hown : ∀ c ∈ cs, owns c f = false) :
+    obs f (runCalls cs s).2.cfg = obs f s.cfg := by
+  have h1 := (history cs s h hd).2.2.1
+  have h2 := obs_docRun f cs s.abs h.ok h.user0 hd hown
+  have : (runCalls cs s).2.cfg = (docRun cs s.abs).2.r := by
+    have := congrArg CfgSt.r h1
+    exact this
+  rw [this]; exact h2
+
+/-- the values the setters establish, read back by the getters (documented clamping) -/
+theorem C03_roundtrip (a : CfgSt) (ha : CfgOk a.r) :
+    (∀ ch, 0 ≤ ch ∧ ch ≤ 125 → ∀ a', docStep (.setChannel ch) a = .ok (a', .unit) →
+      docStep .getChannel a' = .ok (a', .nat ch.toNat)) ∧
+    (∀ n a', docStep (.setArc n) a = .ok (a', .unit) →
+      docStep .getArc a' = .ok (a', .nat (clampI 0 15 n))) ∧
+    (∀ d a', docStep (.setArd d) a = .ok (a', .unit) →
+      docStep .getArd a' = .ok (a', .nat ((clampI 250 4000 d - 250) / 250 * 250 + 250))) ∧
+    (∀ d n a', docStep (.setAutoRetries d n) a = .ok (a', .unit) →
+      docStep .getAutoRetries a' =
+        .ok (a', .pair ((clampI 250 4000 d - 250) / 250 * 250 + 250) (clampI 0 15 n))) ∧
+    (∀ v, v = 1 ∨ v = 2 ∨ v = 250 → ∀ a', docStep (.setDataRate v) a = .ok (a', .unit) →
+      docStep .getDataRate a' = .ok (a', .nat v.toNat)) ∧
+    (∀ v l, paLegal v → ∀ a', docStep (.setPaLevelLna v l) a = .ok (a', .unit) →
+      docStep .getPaLevel a' = .ok (a', .int v) ∧ docStep .isLnaEnabled a' = .ok (a', .bool l)) ∧
+    (∀ n a', docStep (.setCrc n) a = .ok (a', .unit) →
+      docStep .getCrc a' = .ok (a', .nat (if a.r.enAA = 0 then clampI 0 2 n else max 1 (clampI 0 2 n)))) ∧
+    (∀ n a', docStep (.setAddressLength n) a = .ok (a', .unit) →
+      docStep .getAddressLength a' = .ok (a', .nat (if 3 ≤ n ∧ n ≤ 5 then n.toNat else 2))) ∧
+    (∀ l p, pipeOk p → ∀ a', docStep (.setPayloadLength l (some p)) a = .ok (a', .unit) →
+      docStep (.getPayloadLength p) a' = .ok (a', .nat (clampI 1 32 l))) ∧
+    (∀ e p, pipeOk p → ∀ a', docStep (.setAutoAck e (some p)) a = .ok (a', .unit) →
+      docStep (.getAutoAckPipe p) a' = .ok (a', .bool e)) ∧
+    (∀ e p, pipeOk p → ∀ a', docStep (.setDynamicPayloads e (some p)) a = .ok (a', .unit) →
+      docStep (.getDynamicPayloadsPipe p) a' = .ok (a', .bool e)) ∧
+    (∀ e a', docStep (.setAllowAskNoAck e) a = .ok (a', .unit) →
+      docStep .getAllowAskNoAck a' = .ok (a', .bool e)) ∧
+    (∀ e a', docStep (.setAck e) a = .ok (a', .unit) → docStep .getAck a' = .ok (a', .bool e)) ∧
+    (∀ b a', docStep (.setPower b) a = .ok (a', .unit) → docStep .getPower a' = .ok (a', .bool b)) ∧
+    (∀ b a', docStep (.setListen b) a = .ok (a', .unit) → docStep .getListen a' = .ok (a', .bool b)) :=
+  roundtrip a ha
+
+/-! ### non-vacuity -/
+
+/-- a concrete state satisfying `Inv`: a fresh plus-variant world after `__init__` and `__enter__` -/
+def s0 : DrvState := (exec enter (exec init { d := {}, w := World.fresh 2 }).2).2
+
+theorem C03_nonvacuous_inv : Inv s0 := by
+  have hshape : RadioShape (DrvState.cfg { d := {}, w := World.fresh 2 }) := by constructor <;> decide
+  have h1 := C03_init_inv { d := {}, w := World.fresh 2 } (by unfold DrvState.Wf; decide) hshape rfl
+    (by intro e he; cases he) rfl
+  exact (reenter_inv _ h1.2.1).2
+
+example : Inv s0 ∧ s0.cfg.rfCh = 76 ∧ s0.cfg.setupRetr = 0x5F ∧ s0.cfg.violations = [] :=
+  ⟨C03_nonvacuous_inv, by decide +kernel⟩
+
+/-- hypotheses of `C03_enter_inv` are satisfiable by a state that does *not* satisfy the invariant:
+    a fresh object (default shadows) on a chip still holding its reset values -/
+example :
+    let s : DrvState := { d := { isPlus := true }, w := World.fresh 1 }
+    s.Wf ∧ s.d.channel ≠ s.cfg.rfCh ∧ s.d.isPlus = s.cfg.plus ∧ s.cfg.featureVisible = true := by
+  unfold DrvState.Wf; decide
+
+/-- hypotheses of `C03_step` / `C03_history` are satisfiable and the conclusion is not trivial:
+    a history with accepted, clamped and rejected calls -/
+example :
+    let cs : List Call := [.setChannel 90, .setArc 99, .setChannel 300, .setPaLevelLna (-12) false,
+      .setAutoAckAttr (.l [0, -1, 1]), .openRxPipe 1 [1, 2, 3], .getChannel, .getArc]
+    (∀ c ∈ cs, c.dom s0.cfg.plus) ∧
+    (docRun cs s0.abs).1 = [.ok .unit, .ok .unit, .error .valueError, .ok .unit, .ok .unit, .ok .unit,
+      .ok (.nat 90), .ok (.nat 15)] := by
+  decide +kernel
 
 end Nrf.Props.C03
